@@ -21,6 +21,8 @@ import (
 	"google.golang.org/grpc/codes"
 	"google.golang.org/grpc/credentials/insecure"
 	"google.golang.org/grpc/status"
+	"google.golang.org/protobuf/protoadapt"
+	"google.golang.org/protobuf/types/known/durationpb"
 	"google.golang.org/protobuf/types/known/emptypb"
 )
 
@@ -30,7 +32,52 @@ import (
 // backend received on streams it acknowledged.
 
 type pbPlan struct {
-	failAfter int // -1: accept; k ≥ 0: fail once k messages were received (or at end of stream)
+	failAfter int        // -1: accept; k ≥ 0: fail once k messages were received (or at end of stream)
+	code      codes.Code // status code of the failure
+	detail    int        // 0: none; 1: rate-limited; 2: bad request; 3: authentication failed; 4: device quota
+	stall     bool       // instead of failing, never answer: the client's deadline ends the upload
+	dead      bool       // the upload goes to an endpoint nobody listens on
+}
+
+var pbCodes = []codes.Code{
+	codes.Unavailable, codes.Unavailable, codes.DeadlineExceeded, codes.Canceled, codes.AlreadyExists, codes.ResourceExhausted,
+	codes.Internal, codes.Unauthenticated, codes.InvalidArgument, codes.Unknown, codes.Aborted, codes.OutOfRange,
+}
+
+func (p pbPlan) String() string {
+	if p.failAfter < 0 {
+		return "accept"
+	}
+	if p.dead {
+		return "dead-after-0"
+	}
+	if p.stall {
+		return fmt.Sprintf("stall-after-%d", p.failAfter)
+	}
+
+	return fmt.Sprintf("fail-after-%d-%s-detail%d", p.failAfter, p.code, p.detail)
+}
+
+func (p pbPlan) err(where string) (err error) {
+	st := status.New(p.code, "verif: scripted backend failure"+where)
+	var d protoadapt.MessageV1
+	switch p.detail {
+	case 1:
+		d = &backendpb.RateLimitedError{Message: "verif", RetryDelay: durationpb.New(time.Hour)}
+	case 2:
+		d = &backendpb.BadRequestError{Message: "verif"}
+	case 3:
+		d = &backendpb.AuthenticationFailedError{Message: "verif"}
+	case 4:
+		d = &backendpb.DeviceQuotaExceededError{Message: "verif"}
+	default:
+		return st.Err()
+	}
+	if std, derr := st.WithDetails(d); derr == nil {
+		return std.Err()
+	}
+
+	return st.Err()
 }
 
 type pbStream struct {
@@ -57,13 +104,21 @@ func (s *pbServer) SaveDevicesBillingStat(
 
 	for {
 		if plan.failAfter >= 0 && len(st.got) >= plan.failAfter {
-			return status.Error(codes.Unavailable, "verif: scripted backend failure")
+			if plan.stall {
+				<-srv.Context().Done()
+			}
+
+			return plan.err("")
 		}
 		data, recvErr := srv.Recv()
 		if recvErr != nil {
 			if errors.Is(recvErr, io.EOF) {
 				if plan.failAfter >= 0 {
-					return status.Error(codes.Unavailable, "verif: scripted backend failure at end of stream")
+					if plan.stall {
+						<-srv.Context().Done()
+					}
+
+					return plan.err(" at end of stream")
 				}
 				s.mu.Lock()
 				st.accepted = true
@@ -103,6 +158,114 @@ func pbToRec(d *backendpb.DeviceBillingStat) (dev int, r rec) {
 	}}
 }
 
+// showWire prints a message as the model's `wire` op does.
+func showWire(msg *backendpb.DeviceBillingStat) string {
+	return fmt.Sprintf("w %d %d %d %d %d %d %d", devNum(agd.DeviceID(msg.DeviceId)), msg.LastActivityTime.GetSeconds(),
+		msg.LastActivityTime.GetNanos(), ctryIndex(geoip.Country(msg.ClientCountry)), msg.Proto, msg.Asn, msg.Queries)
+}
+
+// wireCampaign hands crafted batches directly to the real uploader: counts
+// around 2^31 and 2^32 (held by the int32 field as Go's wrapping arithmetic
+// leaves them), times before 1970 and with every nanosecond digit, extreme
+// ASNs and protocols.  Oracle: the acknowledged message carries the count
+// modulo 2^32 and exactly the record's time, country, ASN and protocol.
+func wireCampaign(x *runner, bs *backendpb.BillStat, srv *pbServer) {
+	r := x.r
+	rng := x.o.Rand("wire")
+	counts := []uint64{1, 2, 255, 256, 65535, 65536, 1<<31 - 1, 1 << 31, 1<<31 + 5, 1<<32 - 1, 1 << 32, 1<<32 + 7, 3 << 31}
+	times := []int64{0, 1, -1, -1_000_000_000, -1_000_000_001, 999_999_999, 1_000_000_000, 1_700_000_000_123_456_789,
+		-2_208_988_800_000_000_000, 4_102_444_800_999_999_999}
+	rounds := 20
+	if x.o.Thorough() {
+		rounds = 200
+	}
+	for round := 0; round < rounds && !x.expired(); round++ {
+		k := 1 + rng.IntN(12)
+		recs := billstat.Records{}
+		want := map[int]string{}
+		var lines, real []string
+		lines, real = append(lines, "init 1"), append(real, "ok")
+		type crafted struct {
+			n uint64
+			m meta
+		}
+		in := map[int]crafted{}
+		for d := 0; d < k; d++ {
+			n := counts[rng.IntN(len(counts))]
+			if rng.IntN(3) == 0 {
+				n = rng.Uint64N(1 << 33)
+				if n == 0 {
+					n = 1
+				}
+			}
+			t := times[rng.IntN(len(times))]
+			if rng.IntN(3) == 0 {
+				t = rng.Int64N(4e18) - 2e18
+			}
+			m := meta{T: t, C: rng.IntN(len(countries)), A: asns[rng.IntN(len(asns))], P: uint8(rng.IntN(256))}
+			in[d] = crafted{n, m}
+			// int32(n) is what n increments of an int32 leave behind.
+			recs[devID(d)] = &billstat.Record{Time: time.Unix(0, t), Country: countries[m.C], ASN: geoip.ASN(m.A),
+				Queries: int32(n), Proto: agd.Protocol(m.P)}
+			sec, nano := t/1_000_000_000, t%1_000_000_000
+			if nano < 0 {
+				sec, nano = sec-1, nano+1_000_000_000
+			}
+			want[d] = fmt.Sprintf("w %d %d %d %d %d %d %d", d, sec, nano, m.C, m.P, m.A, n%(1<<32))
+		}
+		srv.mu.Lock()
+		srv.plan = pbPlan{failAfter: -1}
+		srv.streams = nil
+		srv.mu.Unlock()
+		ctx, cancel := context.WithTimeout(context.Background(), 20*time.Second)
+		err := bs.Upload(ctx, recs)
+		cancel()
+		srv.mu.Lock()
+		streams := srv.streams
+		srv.mu.Unlock()
+		replay := map[string]any{"campaign": "wire", "round": round, "records": fmt.Sprint(in)}
+		if err != nil || len(streams) != 1 || !streams[0].accepted || len(streams[0].got) != k {
+			r.Violate("lost-queries", fmt.Sprintf("wire: direct Upload of %d crafted records: err=%v, streams=%d", k, err, len(streams)), replay)
+
+			continue
+		}
+		seen := map[int]bool{}
+		for _, msg := range streams[0].got {
+			d := devNum(agd.DeviceID(msg.DeviceId))
+			got := showWire(msg)
+			if seen[d] {
+				r.Violate("double-counted-queries", fmt.Sprintf("wire: device %d sent twice in one upload", d), replay)
+			}
+			seen[d] = true
+			if got != want[d] {
+				r.Violate("wire-differs-from-record", fmt.Sprintf("wire: record %v of device %d went out as %q, want %q", in[d], d, got, want[d]), replay)
+			}
+			c := in[d]
+			lines = append(lines, fmt.Sprintf("wire %d %d %d %d %d %d", d, c.n, c.m.T, c.m.C, c.m.A, c.m.P))
+			real = append(real, got)
+		}
+		x.m.ResetLog()
+		ans := x.m.Batch(lines)
+		r.ModelOps += len(lines)
+		agree := true
+		for i := range lines {
+			if ans[i] != real[i] {
+				agree = false
+				r.Disagree("model-vs-uploader-wire", fmt.Sprintf("%q: uploader %q, model %q", lines[i], real[i], ans[i]),
+					map[string]any{"lines": lines, "real": real, "model": ans})
+
+				break
+			}
+		}
+		if agree {
+			r.Traces++
+		}
+		r.Count("case.wire")
+		r.Distribution["wire.records"] += k
+		r.Case("wire;"+strings.Join(lines, ";"), true)
+	}
+}
+
 func pbCampaign(x *runner) {
 	r := x.r
 	l, err := net.Listen("tcp", "127.0.0.1:0")
@@ -125,15 +288,40 @@ func pbCampaign(x *runner) {
 	})
 	hlib.Must(err)
 
+	// A second uploader whose endpoint refuses connections: opening the
+	// stream fails.
+	dl, err := net.Listen("tcp", "127.0.0.1:0")
+	hlib.Must(err)
+	deadAddr := dl.Addr().String()
+	_ = dl.Close()
+	bsDead, err := backendpb.NewBillStat(&backendpb.BillStatConfig{
+		Logger:      slogutil.NewDiscardLogger(),
+		GRPCMetrics: backendpb.EmptyGRPCMetrics{},
+		ErrColl:     quietErrColl(),
+		Endpoint:    &url.URL{Scheme: "grpc", Host: deadAddr},
+	})
+	hlib.Must(err)
+
+	wireCampaign(x, bs, srv)
+
 	rng := x.o.Rand("grpc")
 	cases := 150
 	if x.o.Thorough() {
 		cases = 600
 	}
 	budget := 0
+	stalls := 12
+	if x.o.Thorough() {
+		stalls = 60
+	}
 	g := &gen{rng: rng, clock: 1_700_000_000_000_000_000, overlap: &budget}
 	for c := 0; c < cases && !x.expired(); c++ {
 		k := 1 + rng.IntN(4)
+		wide := c%12 == 5
+		if wide {
+			// Batches with many records: limits on the size of a stream.
+			k = []int{65, 101, 129, 257, 1025}[rng.IntN(5)] + rng.IntN(9)
+		}
 		tee := &teeUploader{real: bs}
 		rr := billstat.NewRuntimeRecorder(&billstat.RuntimeRecorderConfig{
 			Logger: slogutil.NewDiscardLogger(), ErrColl: quietErrColl(), Uploader: tee, Metrics: billstat.EmptyMetrics{},
@@ -148,12 +336,25 @@ func pbCampaign(x *runner) {
 				map[string]any{"campaign": "grpc", "devices": k, "ops": append([]string{}, log...)})
 		}
 		steps := 2 + rng.IntN(30)
+		prefill := []int{}
+		if wide {
+			prefill = rng.Perm(k)
+			steps += len(prefill)
+		}
 		for s := 0; s <= steps; s++ {
 			final := s == steps
-			if !final && rng.IntN(100) < 65 {
+			if s < len(prefill) || (!final && rng.IntN(100) < 65) {
 				o := op{K: opRec, D: rng.IntN(k), M: g.meta()}
-				rr.Record(ctx, devID(o.D), countries[o.M.C], geoip.ASN(o.M.A), time.Unix(0, o.M.T), agd.Protocol(o.M.P))
-				recorded[o.D]++
+				if s < len(prefill) {
+					o.D = prefill[s]
+				} else if c%10 == 3 && rng.IntN(4) == 0 {
+					// Large counts on the wire.
+					o.N = []int{255, 256, 65535, 65536, 70001}[rng.IntN(5)]
+				}
+				for i := 0; i < max(o.N, 1); i++ {
+					rr.Record(ctx, devID(o.D), countries[o.M.C], geoip.ASN(o.M.A), time.Unix(0, o.M.T), agd.Protocol(o.M.P))
+				}
+				recorded[o.D] += int64(max(o.N, 1))
 				last[o.D] = o.M
 				log = append(log, o.String())
 				one := map[int]rec{}
@@ -171,16 +372,37 @@ func pbCampaign(x *runner) {
 					plan.failAfter = 0
 				case 1:
 					plan.failAfter = 1 + rng.IntN(3)
+					if wide {
+						plan.failAfter = 1 + rng.IntN(k)
+					}
 				case 2:
-					plan.failAfter = 1000 // at the end of the stream
+					plan.failAfter = 1 << 30 // at the end of the stream
 				}
+				plan.code = pbCodes[rng.IntN(len(pbCodes))]
+				if rng.IntN(4) == 0 {
+					plan.detail = 1 + rng.IntN(4)
+				}
+				plan.stall = plan.failAfter >= 0 && stalls > 0 && rng.IntN(12) == 0
+				plan.dead = plan.failAfter >= 0 && !plan.stall && rng.IntN(8) == 0
+			}
+			tee.real = bs
+			if plan.dead {
+				tee.real = bsDead
+			}
+			rctx, rcancel := ctx, context.CancelFunc(func() {})
+			if plan.stall {
+				// Only this upload's deadline ends the stalled stream.  It
+				// fails whatever the timing.
+				stalls--
+				rctx, rcancel = context.WithTimeout(ctx, 30*time.Millisecond)
 			}
 			srv.mu.Lock()
 			srv.plan = plan
 			srv.streams = nil
 			srv.mu.Unlock()
 			before := tee.n
-			rerr := rr.Refresh(ctx)
+			rerr := rr.Refresh(rctx)
+			rcancel()
 			if tee.n != before+1 {
 				violate("uploader-not-called-once", fmt.Sprintf("Refresh called Upload %d times", tee.n-before))
 
@@ -189,7 +411,8 @@ func pbCampaign(x *runner) {
 			srv.mu.Lock()
 			streams := srv.streams
 			srv.mu.Unlock()
-			log = append(log, fmt.Sprintf("refresh(failAfter=%d)->err=%v", plan.failAfter, rerr != nil))
+			log = append(log, fmt.Sprintf("refresh(backend=%s)->err=%v", plan, rerr != nil))
+			r.Count("grpc.backend." + strings.SplitN(plan.String(), "-after-", 2)[0])
 			lines, real = append(lines, "begin"), append(real, showRecs("batch", tee.snap))
 			accepted := map[int]rec{}
 			nAccepted := 0
@@ -204,6 +427,44 @@ func pbCampaign(x *runner) {
 						violate("double-counted-queries", fmt.Sprintf("device %d sent twice in one upload", d))
 					}
 					accepted[d] = rc
+				}
+			}
+			// The uploader on its own: result and wire content against the
+			// model of Upload and recordToProtobuf.
+			how := "accept"
+			if rerr != nil {
+				switch msg := rerr.Error(); {
+				case strings.Contains(msg, "opening stream"):
+					how = "open"
+				case strings.Contains(msg, "uploading device"):
+					how = "send"
+				case strings.Contains(msg, "finishing stream"):
+					how = "close"
+				default:
+					how = "unknown-error"
+				}
+				r.Count("grpc.upload.err." + how)
+			}
+			upLine, upReal := fmt.Sprintf("upload %d %s 0", len(tee.snap), how), "err"
+			if rerr == nil {
+				nMsgs := 0
+				for _, st := range streams {
+					if st.accepted {
+						nMsgs += len(st.got)
+					}
+				}
+				upReal = fmt.Sprintf("ok %d", nMsgs)
+			}
+			var wireLines, wireReal []string
+			for _, st := range streams {
+				for i, msg := range st.got {
+					if !st.accepted || i >= 8 {
+						break
+					}
+					d, _ := pbToRec(msg)
+					b := tee.snap[d]
+					wireLines = append(wireLines, fmt.Sprintf("wire %d %d %d %d %d %d", d, b.N, b.M.T, b.M.C, b.M.A, b.M.P))
+					wireReal = append(wireReal, showWire(msg))
 				}
 			}
 			if rerr == nil {
@@ -235,6 +496,8 @@ func pbCampaign(x *runner) {
 			}
 			pend := canonRecords(verifPending(rr))
 			real = append(real, showRecs("pend", pend))
+			lines, real = append(lines, upLine), append(real, upReal)
+			lines, real = append(lines, wireLines...), append(real, wireReal...)
 			for d := 0; d < k; d++ {
 				got, want := delivered[d]+pend[d].N, recorded[d]
 				if got < want {
